@@ -74,3 +74,52 @@ Print Assumptions C02_savef_range.
 Theorem C02_nonvacuous : program_ok demo_program demo_settings /\ init_ok demo_settings.
 Proof. exact demo_program_ok. Qed.
 Print Assumptions C02_nonvacuous.
+
+(* ---- the debugger's state-changing commands (Model/Session.v, session correspondence) ------------------ *)
+From Hera.Model Require Import Debugger MiniParser Session.
+From Hera.Proofs Require Import C11_Debug C02_Debug.
+
+Theorem C02_debugger_stepping_wf : forall code fuel,
+  code_ok (rops code) -> only_last_branches code ->
+  (forall n d d', wf_vm (d_vm d) -> next_n fuel code n d = Ok d' -> wf_vm (d_vm d')) /\
+  (forall d d', wf_vm (d_vm d) -> Session.do_step code d = Ok d' -> wf_vm (d_vm d')) /\
+  (forall d d', wf_vm (d_vm d) -> do_continue fuel code d = Ok d' -> wf_vm (d_vm d')).
+Proof.
+  intros code fuel C OL. split; [|split]; intros.
+  - eapply next_n_wf; eassumption.
+  - eapply step_wf; eassumption.
+  - eapply continue_wf; eassumption.
+Qed.
+Print Assumptions C02_debugger_stepping_wf.
+
+Theorem C02_debugger_writes_wf :
+  (forall fs b d d', wf_vm (d_vm d) -> do_flags fs b d = Ok d' -> wf_vm (d_vm d')) /\
+  (forall b d d', wf_vm (d_vm d) -> do_goto b d = Ok d' -> wf_vm (d_vm d')) /\
+  (forall st a e d d', wf_vm (d_vm d) -> do_assign st (LMem a) e d = Ok d' -> wf_vm (d_vm d')) /\
+  (forall st e d d', wf_vm (d_vm d) -> do_assign st LPc e d = Ok d' -> wf_vm (d_vm d')) /\
+  (forall st i e d d' rhs, wf_vm (d_vm d) -> reg_ix i -> eval (d_vm d) st e = Some rhs -> word rhs ->
+     do_assign st (LReg i) e d = Ok d' -> wf_vm (d_vm d')).
+Proof.
+  split; [|split; [|split; [|split]]]; intros.
+  - eapply flags_wf; eassumption.
+  - eapply goto_wf; eassumption.
+  - eapply assign_mem_wf; eassumption.
+  - eapply assign_pc_wf; eassumption.
+  - eapply assign_reg_wf; eassumption.
+Qed.
+Print Assumptions C02_debugger_writes_wf.
+
+Theorem C02_debugger_restart_wf : forall data d d', Forall data_op_ok data -> init_ok (cfg (d_vm d)) ->
+  0 <= data_start (cfg (d_vm d)) -> data_start (cfg (d_vm d)) + data_total data <= 65536 ->
+  do_restart data d = Ok d' -> wf_vm (d_vm d').
+Proof. exact restart_wf. Qed.
+Print Assumptions C02_debugger_restart_wf.
+
+(* KNOWN FINDING D9: assigning a negative value to a register stores it unreduced; the full
+   statement (every assignment keeps the machine well-formed) is false of the faithful model *)
+Theorem C02_debugger_assign_negative_refuted :
+  wf_vmb d9_state = true /\
+  exists d', do_assign [] (LReg 12) d9_expr (mkd d9_state [] 0) = Ok d' /\
+             getreg (d_vm d') 12 = -2748 /\ wf_vmb (d_vm d') = false.
+Proof. exact assign_reg_negative_refuted. Qed.
+Print Assumptions C02_debugger_assign_negative_refuted.
